@@ -78,7 +78,14 @@ class ErrorRender:
 
 	def __build_message(self) -> str:
 		"""Returns: 例外メッセージ"""
-		join_args = ', '.join([f'"{arg}"' if isinstance(arg, str) else str(arg) for arg in self.e.args])
+		def to_str(arg: object) -> str:
+			try:
+				return f'"{arg}"' if isinstance(arg, str) else str(arg)
+			except Exception:
+				# XXX 文字列化自体が失敗する引数(名前を解決できないノード等)はクラス名のみ表示
+				return f'<{arg.__class__.__name__}>'
+
+		join_args = ', '.join([to_str(arg) for arg in self.e.args])
 		return f'({join_args})'
 
 	class Quotation:
